@@ -257,8 +257,10 @@ func VH_C04_T1_two_writers() {
 	bDelete := vrt.Bool("b-deletes")
 	bdone := make(chan struct{}, 1)
 	started := false
+	// B is started while A is inside its write: after the append, or after the tree update
+	startAt := []string{"set:after-append", "set:after-tree"}[vrt.Choice("b-starts-at", 2)]
 	VerifHook = func(p string) {
-		if p != "set:after-append" || started {
+		if p != startAt || started {
 			return
 		}
 		started = true
